@@ -26,6 +26,20 @@ def endpoint_of(name):
     return None
 
 
+def _reads_local(B, o, target, depth=6):
+    """operand is (a copy / negation-free move of) local `target`"""
+    while depth > 0 and o.get("k") in ("copy", "move"):
+        depth -= 1
+        l = o["p"]["l"]
+        if l == target:
+            return True
+        d = B.single_def(l)
+        if d is None or d[2] != "assign" or d[3]["rv"]["k"] != "use":
+            return False
+        o = d[3]["rv"]["o"]
+    return False
+
+
 def short(c):
     return q.base_name(c).split("::{closure")[0].rsplit("::", 1)[-1]
 
@@ -100,6 +114,49 @@ def run(F, R, tier):
         p = BG.path([0], okret, cut_edges=v_imp)
         R.check(bool(v_ts) and okret and p is None, "C09.R1", "C09.R1:%s:validated" % gsf["id"], "-",
                 "get_status returns Ok(status) only after status.validate() succeeded")
+
+    # helper contract: validate() answers Ok only for a valid document - its callers use `?` and discard the bool
+    vf = R.anchor(KS + "validate", "C09.R1")
+    if vf:
+        BV = mir.Body(vf, F)
+        okb, flags = [], set()
+        for bi, b in enumerate(BV.blocks):
+            for s in b["stmts"]:
+                if s["k"] == "assign" and s["lhs"]["l"] == 0 and not s["lhs"]["p"] and s["rv"]["k"] == "agg" and s["rv"].get("variant") == "Ok":
+                    okb.append(bi)
+                    o = s["rv"]["ops"][0]
+                    if o["k"] in ("copy", "move"):
+                        flags.add(o["p"]["l"])
+                    elif o["k"] == "const" and o.get("val") in (1, True):
+                        flags.add("const-true")
+                    else:
+                        flags.add("const-false")
+        okv = bool(okb) and len(flags) == 1
+        detail = "Ok payloads: %s" % sorted(map(str, flags))
+        if okv and "const-true" not in flags:
+            okv = False
+            fl = next(iter(flags))
+            if isinstance(fl, int):
+                # the payload temp is a copy of the flag variable
+                d_ = BV.single_def(fl)
+                while d_ is not None and d_[2] == "assign" and d_[3]["rv"]["k"] == "use" and d_[3]["rv"]["o"]["k"] in ("copy", "move") \
+                        and not d_[3]["rv"]["o"]["p"]["p"]:
+                    fl = d_[3]["rv"]["o"]["p"]["l"]
+                    d_ = BV.single_def(fl)
+                for sb in BV.switch_blocks():
+                    e, tr, fa = BV.truth_edges(sb)
+                    if e[0] == "op" and e[1]["k"] in ("copy", "move") and any(
+                            (x[0] == "unknown" and False) for x in ()) is False and _reads_local(BV, e[1], fl):
+                        # Ok(flag) only reachable through the flag == true edge, and the flag is not written again afterwards
+                        after = BV.reach([tr[1]])
+                        rewritten = [d[0] for d in BV.defs.get(fl, []) if d[0] in after]
+                        if BV.path([0], okb, cut_edges=[tr]) is None and not rewritten:
+                            okv = True
+                detail = "Ok(%s) reachable only through the `flag is true` edge: %s" % (BV.locals[fl].get("name") or fl, okv)
+        R.check(okv, "C09.R1", "C09.R1:%s:ok-means-valid" % vf["id"], "%s:%s" % (vf["file"], vf["line"]),
+                "KeyStatus::validate returns Ok only for a document that passed every check (its bool is never false)",
+                "KeyStatus::validate can return Ok(false): get_status() uses `validate()?` and ignores the bool, so an invalid document is "
+                "processed like a valid one (%s)" % detail)
 
     # ------------------------------------------------------------------ R2 in loop_poll
     for bi, w, r, t in B.calls:
